@@ -48,6 +48,10 @@ pub struct C14Cfg {
     pub max_chain: usize,
     pub max_block: usize,
     pub restart: bool,
+    /// macro letters: connect / disconnect as many empty blocks as the tracker's reorg window
+    /// holds (and one fewer), so that the deepest reorganisation the window allows is exercised
+    #[serde(default)]
+    pub deep: bool,
 }
 
 #[derive(Clone, Debug, PartialEq, Eq, Hash, Serialize, Deserialize)]
@@ -55,6 +59,9 @@ pub enum Op {
     Connect(Vec<T>),
     Disconnect,
     Restart,
+    /// macro letters (deep configurations only)
+    ConnectEmpty(u32),
+    DisconnectMany(u32),
 }
 
 pub struct C14State {
@@ -63,7 +70,13 @@ pub struct C14State {
     pub chain: SimChain,
     pub names: Vec<Vec<T>>,
     pub dead: bool,
+    /// the harness's own model of how many headers the tracker remembers (= how many blocks may
+    /// be disconnected): min(previous + 1, window) on connect, previous - 1 on disconnect
+    pub remembered: usize,
 }
+
+/// the documented reorg window
+const WIN: usize = lightning_signer::chain::tracker::ChainTracker::<lightning_signer::monitor::ChainMonitor>::MAX_REORG_SIZE;
 
 pub struct C14Model {
     pub cfg: C14Cfg,
@@ -263,7 +276,10 @@ impl C14Model {
             }));
         }
         let _ = f;
-        let headers: Vec<String> = t.headers().iter().map(|h| format!("{}:{}", h.0.block_hash(), h.1)).collect();
+        // The window of remembered headers is a function of the best chain only while no reorg
+        // went deeper than what was remembered before it (a window does not refill with older
+        // headers); with the window-deep macro letters it is therefore left out of the view.
+        let headers: Vec<String> = if self.cfg.deep { vec![] } else { t.headers().iter().map(|h| format!("{}:{}", h.0.block_hash(), h.1)).collect() };
         json!({
             "height": t.height(),
             "tip": format!("{}:{}", t.tip().0.block_hash(), t.tip().1),
@@ -283,19 +299,24 @@ impl Model for C14Model {
 
     fn name(&self) -> String {
         format!(
-            "chainmc({:?},{},{:?},L={},B={}{})",
+            "chainmc({:?},{},{:?},L={},B={}{}{})",
             self.cfg.scen,
             if self.cfg.anchors { "anchors" } else { "static" },
             self.cfg.delivery,
             self.cfg.max_chain,
             self.cfg.max_block,
-            if self.cfg.restart { ",restart" } else { "" }
+            if self.cfg.restart { ",restart" } else { "" },
+            if self.cfg.deep { ",reorg-window-macros" } else { "" }
         )
     }
 
     fn init(&self) -> C14State {
         let (w, f, chain) = self.fresh();
-        C14State { w: Some(w), f, chain, names: vec![], dead: false }
+        let remembered = {
+            let t = w.node.get_tracker();
+            t.headers().len()
+        };
+        C14State { remembered, w: Some(w), f, chain, names: vec![], dead: false }
     }
 
     fn alive(&self, s: &C14State) -> bool {
@@ -304,7 +325,7 @@ impl Model for C14Model {
 
     fn ops(&self, s: &C14State) -> Vec<Op> {
         let mut v = vec![];
-        if !s.chain.blocks.is_empty() {
+        if !s.chain.blocks.is_empty() && s.remembered >= 1 {
             v.push(Op::Disconnect);
         }
         if self.cfg.restart {
@@ -315,12 +336,25 @@ impl Model for C14Model {
                 v.push(Op::Connect(b));
             }
         }
+        if self.cfg.deep {
+            let win = lightning_signer::chain::tracker::ChainTracker::<lightning_signer::monitor::ChainMonitor>::MAX_REORG_SIZE as u32;
+            let n = s.chain.blocks.len() as u32;
+            if n < win {
+                v.push(Op::ConnectEmpty(win));
+                v.push(Op::ConnectEmpty(win - 1));
+            }
+            for k in [win, win - 1] {
+                if n >= k && s.remembered as u32 >= k {
+                    v.push(Op::DisconnectMany(k));
+                }
+            }
+        }
         v
     }
 
     fn key(&self, s: &C14State) -> String {
         let v = self.view(s.w(), &s.f);
-        format!("{}|{:?}", fp(&v), s.names)
+        format!("{}|{:?}|{}", fp(&v), s.names, s.remembered)
     }
 
     fn apply(&self, s: &mut C14State, op: &Op, check: bool, vios: &mut Vec<Vio>) {
@@ -335,6 +369,7 @@ impl Model for C14Model {
                 let w = s.w.as_ref().unwrap();
                 let r = w.connect(&mut s.chain, block, self.cfg.delivery);
                 if r.is_ok() {
+                    s.remembered = (s.remembered + 1).min(WIN);
                     s.names.push(names.clone());
                 }
                 r
@@ -345,6 +380,37 @@ impl Model for C14Model {
                 let w = s.w.as_ref().unwrap();
                 let r = w.disconnect(&mut s.chain, self.cfg.delivery);
                 if r.is_ok() {
+                    s.remembered = s.remembered.saturating_sub(1);
+                    s.names.pop();
+                }
+                r
+            }
+            Op::ConnectEmpty(k) => {
+                kind = format!("connect-empty*{}", k);
+                let mut r = Outcome::Ok(());
+                for i in 0..*k {
+                    let _ = i;
+                    let block = self.build_block(s, &vec![]);
+                    let w = s.w.as_ref().unwrap();
+                    r = w.connect(&mut s.chain, block, self.cfg.delivery);
+                    if !r.is_ok() {
+                        break;
+                    }
+                    s.remembered = (s.remembered + 1).min(WIN);
+                    s.names.push(vec![]);
+                }
+                r
+            }
+            Op::DisconnectMany(k) => {
+                kind = format!("disconnect*{}", k);
+                let mut r = Outcome::Ok(());
+                for _ in 0..*k {
+                    let w = s.w.as_ref().unwrap();
+                    r = w.disconnect(&mut s.chain, self.cfg.delivery);
+                    if !r.is_ok() {
+                        break;
+                    }
+                    s.remembered = s.remembered.saturating_sub(1);
                     s.names.pop();
                 }
                 r
@@ -367,7 +433,7 @@ impl Model for C14Model {
         };
         match &r {
             Outcome::Panic(p) => {
-                let is_reorg = matches!(op, Op::Disconnect);
+                let is_reorg = matches!(op, Op::Disconnect | Op::DisconnectMany(_));
                 vios.push(Vio {
                     prop: "C14",
                     key: format!("C14:panic:{}:{}", if is_reorg { "disconnect" } else { "connect" }, kind),
@@ -392,7 +458,7 @@ impl Model for C14Model {
             let names = s.names.clone();
             let fresh = catch(|| {
                 let (w2, f2, base) = self.fresh();
-                let mut st2 = C14State { w: Some(w2), f: f2, chain: base, names: vec![], dead: false };
+                let mut st2 = C14State { remembered: 0, w: Some(w2), f: f2, chain: base, names: vec![], dead: false };
                 for n in &names {
                     let b = self.build_block(&st2, n);
                     let w = st2.w.as_ref().unwrap();
@@ -435,18 +501,20 @@ pub fn configs(tier: Tier) -> Vec<C14Cfg> {
     let mut v = vec![];
     match tier {
         Tier::Quick => {
-            v.push(C14Cfg { scen: Scen::Funding, anchors: false, delivery: Delivery::Compact, max_chain: 3, max_block: 2, restart: false });
-            v.push(C14Cfg { scen: Scen::HolderClose, anchors: false, delivery: Delivery::Compact, max_chain: 2, max_block: 2, restart: false });
-            v.push(C14Cfg { scen: Scen::CpClose, anchors: true, delivery: Delivery::Streamed, max_chain: 2, max_block: 2, restart: false });
+            v.push(C14Cfg { scen: Scen::Funding, anchors: false, delivery: Delivery::Compact, max_chain: 3, max_block: 2, restart: false, deep: false });
+            v.push(C14Cfg { scen: Scen::HolderClose, anchors: false, delivery: Delivery::Compact, max_chain: 2, max_block: 2, restart: false, deep: false });
+            v.push(C14Cfg { scen: Scen::CpClose, anchors: true, delivery: Delivery::Streamed, max_chain: 2, max_block: 2, restart: false, deep: false });
+            v.push(C14Cfg { scen: Scen::Funding, anchors: false, delivery: Delivery::Compact, max_chain: 1, max_block: 1, restart: false, deep: true });
         }
         Tier::Thorough => {
             for delivery in [Delivery::Compact, Delivery::Streamed] {
-                v.push(C14Cfg { scen: Scen::Funding, anchors: false, delivery, max_chain: 4, max_block: 3, restart: true });
+                v.push(C14Cfg { scen: Scen::Funding, anchors: false, delivery, max_chain: 4, max_block: 3, restart: true, deep: false });
                 for anchors in [false, true] {
-                    v.push(C14Cfg { scen: Scen::HolderClose, anchors, delivery, max_chain: 3, max_block: 3, restart: false });
-                    v.push(C14Cfg { scen: Scen::CpClose, anchors, delivery, max_chain: 3, max_block: 3, restart: false });
+                    v.push(C14Cfg { scen: Scen::HolderClose, anchors, delivery, max_chain: 3, max_block: 3, restart: false, deep: false });
+                    v.push(C14Cfg { scen: Scen::CpClose, anchors, delivery, max_chain: 3, max_block: 3, restart: false, deep: false });
                 }
-                v.push(C14Cfg { scen: Scen::Full, anchors: false, delivery, max_chain: 3, max_block: 2, restart: false });
+                v.push(C14Cfg { scen: Scen::Full, anchors: false, delivery, max_chain: 3, max_block: 2, restart: false, deep: false });
+                v.push(C14Cfg { scen: Scen::Funding, anchors: false, delivery, max_chain: 2, max_block: 2, restart: true, deep: true });
             }
         }
     }
